@@ -386,10 +386,11 @@ def spec_frame(eng, c, locals_, old_heap, old_locals, module=None):
     return fr
 
 
-def bind_contract_args(eng, c, node, args, kwargs):
-    """bind call arguments to the contract's parameter names (taken from the sidecar signature)"""
-    fr = E.Frame(None, None, None, {})
-    eng.bind_params(c.node, fr, args, dict(kwargs), None)
+def bind_contract_args(eng, c, node, args, kwargs, module=None):
+    """bind call arguments to the parameter names: the REAL signature (with its defaults) when the callee is a repo
+    function, the sidecar signature for virtual / external contracts"""
+    fr = E.Frame(module, None, None, {})
+    eng.bind_params(node if node is not None else c.node, fr, args, dict(kwargs), module)
     out = {}
     for k, v in fr.locals.items():
         s = c.param_sorts.get(k)
@@ -441,7 +442,7 @@ def havoc_modifies(eng, c, mods, fr, prefix):
 def apply_contract_at_call(eng, c, module, cls, node, args, kwargs, line):
     p = eng.path
     eng.called_contracts.add(c.qual)
-    locals_ = bind_contract_args(eng, c, node, args, kwargs)
+    locals_ = bind_contract_args(eng, c, node, args, kwargs, module)
     pre_heap = dict(p.heap)
     fr = spec_frame(eng, c, locals_, pre_heap, locals_)
     site = "%s/call-pre:%s" % (eng.cur_short, c.short)
